@@ -478,7 +478,7 @@ func pipeSpecFromInput(input string, dir string) *PipeSpec {
 		Seencheck: atoi("seencheck", 1) == 1, Pool: atoi("pool", 1), MaxRetry: atoi("retry", 1), MaxRedirect: atoi("mr", 3),
 		MaxHops: atoi("maxhops", 0), SchedSeed: sched, IdleMs: 700, TimeoutMs: atoi("timeout", 60000), Async: atoi("async", 0) == 1,
 		RateLimit: atoi("rl", 0) == 1, Proxy: atoi("proxy", 0) == 1, OnDisk: atoi("ondisk", 0) == 1, LocalDedupe: atoi("dedupe", 0) == 1,
-		Footprint: atoi("footprint", 0) == 1, HTTPTimeout: atoi("httpto", 0), DiskLowMs: atoi("disklow", 0), TempInJob: atoi("tempjob", 0) == 1, IncludeHost: kv["inc"], StopSignal: kv["sig"]}
+		Footprint: atoi("footprint", 0) == 1, HTTPTimeout: atoi("httpto", 0), DiskLowMs: atoi("disklow", 0), TempInJob: atoi("tempjob", 0) == 1, IncludeHost: kv["inc"], StopSignal: kv["sig"], ViaFlags: atoi("flags", 0) == 1}
 	if v, ok := kv["discard"]; ok { // discard=404,503 : --warc-discard-status
 		for _, x := range strings.Split(v, ",") {
 			if n, err := strconv.Atoi(x); err == nil {
